@@ -188,6 +188,7 @@ func checkC18(c *vlib.Ctx) (string, string) {
 		{"acrh-element-length", byteLadder}, {"acrh-element-length:upper", byteLadder},
 		{"acrh-elements", countLadder}, {"acrh-elements:X-A", countLadder}, {"acrh-elements:x-zz", countLadder}, {"acrh-elements: x-a ", countLadder},
 		{"acrh-elements:x-a;q=1", countLadder}, {"acrh-elements:(x)", countLadder}, {"acrh-elements:x\x00", countLadder}, {"acrh-elements:\"x-a\"", countLadder}, {"acrh-elements:é", countLadder},
+		{"acrh-lines: x-a", countLadder}, {"acrh-lines:x-a\t", countLadder}, {"acrh-lines: x-a,x-b ", countLadder}, {"acrh-elements:x-a |\tx-b", countLadder},
 		{"acrh-lines:x-a;q=1", countLadder}, {"acrh-lines:x@y, (z)", countLadder}, {"acrh-lines:\x00", countLadder},
 		{"acrh-elements:x-a|x-b", countLadder}, {"acrh-elements:x-a|X-B|x-zz", countLadder}, {"acrh-elements:Authorization", countLadder},
 		{"acrh-empty-elements", countLadder},
